@@ -8,7 +8,7 @@
     satisfies [InvS] the refreshing edits re-establish it ([refresh_establishes]). *)
 From Coq Require Import Ascii String List Bool PArith NArith ZArith QArith FMapPositive Permutation Lia.
 From PTBase Require Import Exn PyStr.
-From P Require Import Assoc GeoState GeoEdit GeoEdit2 GeoStep Inv InvNames InvSimple Sets InvCol InvConn InvDel InvRefresh InvRename InvCompound InvSplit InvSplit2.
+From P Require Import Assoc GeoState GeoEdit GeoEdit2 GeoStep Inv InvNames InvSimple Sets InvCol InvConn InvDel InvRefresh InvRename InvCompound InvSplit InvSplit2 InvSnap InvDecomp InvRefine.
 Import ListNotations.
 Open Scope list_scope.
 
@@ -27,10 +27,12 @@ Definition preS (g : geo) (o : op) : Prop :=
   | RenCol olds news => ren_cols_ok g (combine olds news) (* new names free; (source as it stands:) renamed columns unconnected *)
   | RenLayer olds news => ren_lays_ok g (combine olds news)
   | SplitCol c n => split_noop g c n
-  (* compound operations: see InvCompound.v; refine / decompose_columns / triangulate_column are modelled and
-     compared with the implementation step by step, but not covered by a preservation theorem *)
-  | Refine _ _ | Triangulate _ | DecomposeCols _ _ _ => False
-  | CopyLayers _ | SnapLayers _ _ | SnapNearest _ | Translate _ _ _ | MoveNodes _ _ => True
+  (* compound operations: see InvCompound.v, InvDecomp.v, InvRefine.v *)
+  | Triangulate _ => True
+  (* each missing connection that is added joins two different columns sharing a side (at the moment it is added) *)
+  | Refine names h => refine_conns_ok g names h
+  | DecomposeCols names hs hmiss => forall g1, decompose_each g names hs = Ok g1 -> conns_ok g1 hmiss
+  | CopyLayers _ | SnapLayers _ _ | SnapNearest _ | FitSurface _ _ _ | Translate _ _ _ | MoveNodes _ _ => True
   | RefineLayers _ _ => S3b g                (* (the proof goes through the whole invariant of the rebuilt layers) *)
   | CheckFix hmiss _ => conns_ok g hmiss                (* each added connection joins columns sharing a side *)
   | Reduce names hmiss _ =>
@@ -63,11 +65,15 @@ Proof.
   - eapply setup_block_connection_name_index_invS; eauto.
   - eapply check_fix_invS; eauto.
   - eapply reduce_invS; eauto.
-  - destruct P. - destruct P. - destruct P.
+  - eapply refine_invS; eauto.
+  - destruct (triangulate_column g n) as [[g1 l]|] eqn:E; cbn [bind fst] in H; [|discriminate]. inversion H; subst g'.
+    eapply triangulate_column_invS; eauto.
+  - eapply decompose_columns_invS; eauto.
   - exact (i_s _ (refine_layers_establishes g names factor g' I P H)).
   - eapply copy_layers_from_invS; eauto.
   - eapply snap_columns_to_layers_invS; eauto.
   - eapply snap_columns_to_nearest_layers_invS; eauto.
+  - eapply fit_surface_invS; eauto.
   - inversion H; subst. apply translate_invS; exact I.
   - eapply move_nodes_invS; eauto.
 Qed.
@@ -86,10 +92,18 @@ Definition pre (g : geo) (o : op) : Prop :=
   | AddLayer _ _ _ _ | DelLayer _ | LayerTops | DefaultSurface => no_dependants g
   | SetSurface _ _ => llist g = []
   | CopyLayers _ | RefineLayers _ _ | MoveNodes _ _ | Translate _ _ _ => True
-  (* kept only up to the clauses named in InvCompound.v (layer counts after a snap; neighbour sets after a repair in the
-     source as it stands; reduce on a valid mesh: reduce_inv_clean) *)
-  | CheckFix _ _ | Reduce _ _ _ | SnapLayers _ _ | SnapNearest _ => False
-  | Refine _ _ | Triangulate _ | DecomposeCols _ _ _ => False
+  (* the layers (below the atmosphere layer) lie one below the other *)
+  | SnapLayers _ _ | FitSurface _ _ _ => layers_descend g
+  | SnapNearest _ => layers_stacked g
+  (* refine identifies the neighbours and sets up the name lists itself *)
+  | Refine _ _ => True
+  (* decompose_columns does not identify the neighbours: repaired source (add_connection keeps the neighbour sets) *)
+  | DecomposeCols _ _ _ => fx_nbr (fx g) = true
+  (* triangulate_column does not refresh the name lists: see triangulate_column_keeps *)
+  | Triangulate _ => False
+  (* kept only up to the clauses named in InvCompound.v (neighbour sets after a repair in the source as it stands;
+     reduce on a valid mesh: reduce_inv_clean) *)
+  | CheckFix _ _ | Reduce _ _ _ => False
   end.
 
 Theorem step_inv g o g' : Inv g -> pre g o -> step g o = Ok g' -> Inv g'.
@@ -117,10 +131,15 @@ Proof.
   - eapply set_num_layers_inv; eauto.
   - eapply setup_block_name_index_inv; eauto.
   - eapply setup_block_connection_name_index_inv; eauto.
-  - destruct P. - destruct P. - destruct PS. - destruct PS. - destruct PS.
+  - destruct P. - destruct P.
+  - eapply refine_inv; eauto.
+  - destruct P.
+  - eapply decompose_columns_inv; eauto.
   - eapply refine_layers_inv; eauto.
   - eapply copy_layers_from_inv; eauto.
-  - destruct P. - destruct P.
+  - eapply snap_columns_to_layers_inv; eauto.
+  - eapply snap_columns_to_nearest_layers_inv; eauto.
+  - eapply fit_surface_inv; eauto.
   - inversion H; subst. apply translate_inv; exact I.
   - eapply move_nodes_inv; eauto.
 Qed.
